@@ -116,7 +116,8 @@ def check_frame(case):
         raise Fail("local frame is not right-handed (det != +1)", observed=float(np.linalg.det(R)))
     v = np.array(case["v"], dtype=float)
     nv = float(np.linalg.norm(v))
-    x = gd.enu2xyz(lat, lon, v[0], v[1], v[2])
+    nk = case.get("num", "float")
+    x = gd.enu2xyz(S.as_kind(lat, nk), S.as_kind(lon, nk), S.as_kind(float(v[0]), nk), S.as_kind(float(v[1]), nk), S.as_kind(float(v[2]), nk))
     wantx = v[0] * e + v[1] * n + v[2] * u
     if not float(np.abs(np.array(x, dtype=float) - wantx).max()) <= 4e-15 * nv + 1e-300:
         raise Fail("enu2xyz is not east*e + north*n + up*u", expected=wantx, observed=x)
@@ -339,7 +340,9 @@ def _cls(case):
     return out
 
 
-frame_cases = st.fixed_dictionaries({"lat": lat_s, "lon": lon_s, "v": vec_s, "kind": S.angle_kind})
+frame_cases = st.fixed_dictionaries({"lat": S.whole_sometimes(lat_s), "lon": S.whole_sometimes(lon_s),
+                                     "v": st.one_of(vec_s, vec_s.map(lambda p: [float(round(c)) for c in p])), "kind": S.angle_kind,
+                                     "num": S.num_kind})
 vcv_cases = st.fixed_dictionaries({"lat": lat_s, "lon": lon_s, "vcv": psd_cond()})
 col_cases = st.fixed_dictionaries({"lat": lat_s, "lon": lon_s, "col": st.lists(st.one_of(S.floats(0.0, 1.0), S.log_uniform(1e-10, 10.0)),
                                                                                min_size=3, max_size=3)})
